@@ -9,6 +9,9 @@ CLAIMS = {
  'C20': dict(engine='ABI', technique='declaration/layout agreement: clang-resolved C type graph (debug-info metadata, folded sizeof/_Alignof) vs Rust item reader + repr(C) layout; thorough adds rustc-checked const/coercion witnesses (compile-fail)',
    cat='proof', text='every repr(C) struct (size, alignment, field order, offsets, machine classes) and every extern "C" fn (existence of a non-static definition, arity, parameter order, machine classes, return class) in src/lib.rs is compared with the C definitions compiled from the current headers, for both real widths; all obligations are enumerated and discharged, so a mismatch anywhere in the binding is reported with both declarations',
    note=TRUST + '; x86-64 SysV class table (specs/abi.json); pointers to void match any pointer; char matches u8/i8; field/parameter renames are reported as notes, only cross-over renames (a proven reordering) are violations; crc8/16/32/64 are Rust-only structs (no C struct of that name exists - checked)'),
+ 'C15': dict(engine='ALG', technique='abstract interpretation of LLVM IR over exact rational functions (symbolic arguments, decision-tree leaves); polynomial identity checking by normal form; loop-body state-transformer templates for Horner/reversal loops',
+   cat='proof', text='all boundary conditions of the cubic/quintic/septic generators are discharged as exact identities in Q(ts,p0,..,j1); every derivative builder and evaluator (pos/vel/acc/jer, c0..c3) is shown to be the exact successive derivative of the position polynomial; the Horner loops (both coefficient orders) and the reversal loop are checked as one-iteration recurrences with guard/first-cell/step obligations that hold for every length',
+   note=TRUST + ', sympy expand/cancel; IEEE operations are read as exact real operations and literals as the rationals they round (1.0/6 -> 1/6): the size of rounding error (the "within rounding" clause) is NOT decided; ctx and output arrays assumed distinct; the Horner clause for arbitrary length rests on the textbook induction over the verified recurrence; a_poly_eval/evar wrappers additionally checked for lengths 1..6'),
 }
 
 NA = {
@@ -41,6 +44,7 @@ def main():
                   'baseline_off_cmd': 'ctest --test-dir /repo/_build -j8 --timeout 900', 'source_commits': [], 'add_only': True},
         'engines': [
             {'name': 'irx+llir', 'path': 'lib/irx.py, lib/llir.py', 'serves_properties': sorted(CLAIMS), 'kind_free_text': 'clang/opt IR pipeline and IR reader (CFG, dominators, loops, def-use)'},
+            {'name': 'ALG', 'path': 'lib/symx.py, lib/alg.py', 'serves_properties': ['C15'], 'kind_free_text': 'abstract interpreter over exact algebraic values with trace partitioning'},
             {'name': 'ABI', 'path': 'props/C20.py, lib/dwarf.py, lib/rustsrc.py', 'serves_properties': ['C20'], 'kind_free_text': 'declaration and layout agreement'},
         ],
         'checks': checks,
